@@ -59,6 +59,20 @@ def mk_case(rng, kind, quick):
     return c
 
 
+def mk_buffet2(rng):
+    """one tensor A[M, K] with both of its ranks bound (different payload widths, hence different elements per line), the inner binding listed first"""
+    shape = 12
+    ms = sorted(rng.sample(range(shape), rng.randint(2, 5)))
+    rows_m = [{"stamp": [i], "coords": [m], "pos": m, "w": 0} for i, m in enumerate(ms)]
+    rows_k = []
+    for i, m in enumerate(ms):
+        for j, k in enumerate(sorted(rng.sample(range(shape), rng.randint(1, 4)))):
+            rows_k.append({"stamp": [i, j], "coords": [m, k], "pos": k, "w": 0})
+    evk = rng.choice(["M", "root"])
+    return {"kind": "buffet2", "order": ["M", "K"], "shape": shape, "evk": evk, "rows_r": [], "rows_w": [],
+            "parts": [{"rows": rows_m, "mask": [1], "epl": 4, "evn": 0}, {"rows": rows_k, "mask": [1, 1], "epl": 2, "evn": 1 if evk == "M" else 0}]}
+
+
 def mk_filter(rng):
     L = 2
     order = NAMES[-2:]
@@ -101,7 +115,7 @@ def run(ctx):
         r["stats"]["generated"] += rc["stats"]["generated"]
     n = 250 if ctx.quick else 5000
     cases = [mk_case(rng, "buffet", ctx.quick) for _ in range(n)] + [mk_case(rng, "cache", ctx.quick) for _ in range(n)]
-    cases += [mk_filter(rng) for _ in range(n // 3)] + [mk_combine(rng) for _ in range(n // 3)]
+    cases += [mk_filter(rng) for _ in range(n // 3)] + [mk_combine(rng) for _ in range(n // 3)] + [mk_buffet2(rng) for _ in range(n // 3)]
     part = family.run_family(ctx, "C17", cases, "harness.exec_buffer", "BufferTrace.tla", "BufferTrace.cfg",
                              op_of=lambda c, lg, st: c["kind"], where_of=lambda c, lg, st: where(c))
     # the optimality oracle: exhaustive replacement search for every (cache case, capacity)
@@ -147,7 +161,7 @@ def run(ctx):
 
 
 def where(c):
-    if c["kind"] in ("filter", "combine"):
+    if c["kind"] in ("filter", "combine", "buffet2"):
         return c["kind"]
     return f"L{len(c['order'])}:epl{c['epl']}:" + ("rw" if c["rows_w"] else "ro")
 
